@@ -3,7 +3,7 @@ import ast
 
 from ..algebra import RF, Alg, Uninterpreted, atom, const, opaque_name
 from ..flow import bindings
-from ..pe import PE, K, Raised
+from ..pe import PE, K, Obj, Raised
 from ..model import AnalysisError, attr_chain, call_name, norm, renamed, stmts_in, walk_no_nested
 
 EXPLANATION = (
@@ -241,9 +241,43 @@ def union(ctx):
         rets = [r for r in ast.walk(fn) if isinstance(r, ast.Return) and isinstance(r.value, ast.Tuple) and len(r.value.elts) == 4]
         ctx.need(len(rets) == 1, "R08.3", "%s: final box not found" % qual)
         zip_positions(ctx, "R08.3", qual, fn, rets[0].value.elts)
-        src = ast.unparse(fn)
-        skip_none = any(isinstance(s, ast.If) and ast.unparse(s.test) == "box is None" and isinstance(s.body[0], ast.Continue) for s in ast.walk(fn))
-        empty = any(isinstance(s, ast.If) and ast.unparse(s.test) in ("len(boxes) == 0", "not boxes") and isinstance(s.body[0], ast.Return) for s in ast.walk(fn))
+        loops = [x for x in fn.body if isinstance(x, ast.For) and isinstance(x.target, ast.Name)]
+        ctx.need(len(loops) == 1, "R08.3", "%s: element loop not found" % qual)
+        lp = loops[0]
+
+        def collected(box_none):
+            """does one element whose bbox() is / is not None add a box?"""
+            added = []
+
+            def hook(pe, call):
+                if isinstance(call.func, ast.Attribute) and call.func.attr == "bbox":
+                    return K(None) if box_none else K(Obj("BOX"))
+                if call_name(call) == "hasattr":
+                    return K(True)
+                return None
+
+            def on_expr(pe, st):
+                c = st.value
+                if isinstance(c, ast.Call) and isinstance(c.func, ast.Attribute) and c.func.attr == "append" and len(c.args) == 1:
+                    v = pe.ev(c.args[0])
+                    added.append(v)
+
+            pe = PE(ctx.m, "R08.3", qual, call_hook=hook, on_expr=on_expr)
+            pe.bind(lp.target.id, K(Obj("ELEMENT")))
+            pe.run(lp.body)
+            return added
+
+        a_some, a_none = collected(False), collected(True)
+        skip_none = len(a_some) == 1 and isinstance(a_some[0], K) and isinstance(a_some[0].v, Obj) and a_some[0].v.name == "BOX" and not a_none
+        empty = False
+        for x in fn.body:
+            if isinstance(x, ast.If) and x.body and isinstance(x.body[0], ast.Return) and (x.body[0].value is None or (isinstance(x.body[0].value, ast.Constant) and x.body[0].value.value is None)):
+                t = x.test
+                if isinstance(t, ast.Compare) and len(t.ops) == 1 and isinstance(t.ops[0], ast.Eq) and isinstance(t.left, ast.Call) and call_name(t.left) == "len" \
+                        and isinstance(t.comparators[0], ast.Constant) and t.comparators[0].value == 0:
+                    empty = True
+                if isinstance(t, ast.UnaryOp) and isinstance(t.op, ast.Not) and isinstance(t.operand, ast.Name):
+                    empty = True
         fwd = [c for c in ast.walk(fn) if isinstance(c, ast.Call) and isinstance(c.func, ast.Attribute) and c.func.attr == "bbox"]
         kw = {k.arg: ast.unparse(k.value) for k in fwd[0].keywords} if fwd else {}
         ctx.ob("R08.3", "%s[skips empty, forwards flags]" % qual, skip_none and empty and kw == {"transformed": "transformed", "with_stroke": "with_stroke"},
@@ -444,6 +478,10 @@ def cubic(ctx):
                 val = ev(node.args[0])
                 if isinstance(val, K) and isinstance(val.v, list):
                     return K((call_name(node), val.v))
+            if isinstance(node, ast.Subscript) and isinstance(node.value, ast.Call) and attr_chain(node.value.func) == ["self", "point"] and len(node.value.args) == 1 \
+                    and isinstance(node.slice, ast.Name) and node.slice.id == v:
+                tv = ev(node.value.args[0])
+                return K(("curve-point", tv.v if isinstance(tv, K) else tv))
             return orig(node)
 
         pe.ev = ev
